@@ -535,6 +535,42 @@ func c01Mutants(r *rand.Rand, sc *signCase, sig *pipeline.Signature, kp, other, 
 			s.SignedFields = nf
 		})
 	}
+	// Field lists altered without changing their length, presented with exactly the environment
+	// that was signed (no backend-added variables): the number of listed fields then equals the
+	// number of values Verify assembles, which must not be mistaken for "nothing to filter".
+	exact := base("control:verify-env-is-exactly-the-signed-env")
+	exact.Venv = copyEnv(sc.Penv)
+	exact.MustAccept = true
+	add(exact)
+	recExact := func(kind string, f func(s *pipeline.Signature)) {
+		m := base(kind)
+		m.Venv = copyEnv(sc.Penv)
+		f(m.Sig)
+		m.AlwaysReject = true
+		add(m)
+	}
+	replaceField := func(s *pipeline.Signature, old, new string) {
+		for i, x := range s.SignedFields {
+			if x == old {
+				s.SignedFields[i] = new
+				return
+			}
+		}
+	}
+	if len(signedEnv) > 0 {
+		n := signedEnv[r.IntN(len(signedEnv))]
+		recExact("sig:env-field-replaced-by-duplicate-command", func(s *pipeline.Signature) { replaceField(s, "env::"+n, "command") })
+		recExact("sig:env-field-replaced-by-unknown-env-name", func(s *pipeline.Signature) { replaceField(s, "env::"+n, "env::NO_SUCH_VARIABLE") })
+		recExact("sig:env-field-replaced-by-duplicate-env-field", func(s *pipeline.Signature) {
+			other := "env::" + signedEnv[0]
+			if other == "env::"+n {
+				other = "repository_url"
+			}
+			replaceField(s, "env::"+n, other)
+		})
+	}
+	recExact("sig:mandatory-field-replaced-by-duplicate", func(s *pipeline.Signature) { replaceField(s, "plugins", "command") })
+	recExact("sig:mandatory-field-replaced-by-unknown-env-name", func(s *pipeline.Signature) { replaceField(s, "matrix", "env::NO_SUCH_VARIABLE") })
 	rec("sig:add-env-field-present-in-env", func(s *pipeline.Signature) {
 		s.SignedFields = append(s.SignedFields, "env::UNRELATED_BUILDKITE_VAR")
 		sort.Strings(s.SignedFields)
